@@ -210,13 +210,27 @@ func c11Run(c core.Case) core.Result {
 				return pfx + "wrap(" + l + ")", "<" + v + ">"
 			case 2:
 				return pfx + "pair(" + l + ", 'q')", "[" + v + "|q]"
-			default:
+			case 3:
 				return pfx + "wrap(" + pfx + "pair('p', " + l + "))", "<[p|" + v + "]>"
+			case 4: // zero-argument calls whose bodies call other macros with plain arguments
+				return pfx + "dash()", "<->"
+			case 5:
+				return pfx + "plain()", "-"
+			case 6:
+				return pfx + "deep()", "(a=d1;b=d2;c=d3)"
+			default: // the same through a dotted alias whatever the call form of the outer macro
+				return map[bool]string{true: "_self.", false: "i."}[form == 0] + "dash()", "<->"
 			}
 		}
 		pfx := map[int]string{0: "_self.", 1: "i.", 2: "", 3: ""}[form]
-		defs := "{% macro m3(a, b, c) %}(a={{ a }};b={{ b }};c={{ c }}){% endmacro %}{% macro wrap(x) %}<{{ x }}>{% endmacro %}{% macro pair(x, y) %}[{{ x }}|{{ y }}]{% endmacro %}"
-		prelude := map[int]string{0: "", 1: "{% import 'mac' as i %}", 2: "{% from 'mac' import m3, wrap, pair %}", 3: "{% from 'mac' import m3, wrap, pair %}"}[form]
+		defs := "{% macro m3(a, b, c) %}(a={{ a }};b={{ b }};c={{ c }}){% endmacro %}{% macro wrap(x) %}<{{ x }}>{% endmacro %}{% macro pair(x, y) %}[{{ x }}|{{ y }}]{% endmacro %}{% macro plain() %}-{% endmacro %}"
+		if form == 0 {
+			defs += "{% macro dash() %}{{ _self.wrap('-') }}{% endmacro %}{% macro deep() %}{{ _self.m3('d1', 'd2', 'd3') }}{% endmacro %}"
+		} else {
+			defs += "{% macro dash() %}{% import 'mac' as h %}{{ h.wrap('-') }}{% endmacro %}{% macro deep() %}{% from 'mac' import m3 %}{{ m3('d1', 'd2', 'd3') }}{% endmacro %}"
+		}
+		fromAll := "{% from 'mac' import m3, wrap, pair, dash, plain, deep %}{% import 'mac' as i %}"
+		prelude := map[int]string{0: "", 1: "{% import 'mac' as i %}", 2: fromAll, 3: fromAll}[form]
 		var args, vals []string
 		for i, sh := range shapes {
 			a, v := atomSrc(i+1, sh, pfx)
@@ -337,19 +351,19 @@ func c11Levels(tier string) []core.Level {
 				}
 			}
 		}},
-		{Name: "arguments that are macro calls with their own arguments (4 shapes, <= 3 arguments), after an earlier call in the same execution or in two loop iterations x 4 call forms", Gen: func(emit func(core.Case)) {
+		{Name: "arguments that are literals, macro calls with their own arguments, or zero-argument calls of macros whose bodies call further macros (8 shapes, <= 3 arguments), after an earlier call in the same execution or in two loop iterations x 4 call forms", Gen: func(emit func(core.Case)) {
 			for form := 0; form < 4; form++ {
 				for n := 1; n <= 3; n++ {
 					total := 1
 					for i := 0; i < n; i++ {
-						total *= 4
+						total *= 8
 					}
 					for m := 0; m < total; m++ {
 						N := []int{form}
 						x := m
 						for i := 0; i < n; i++ {
-							N = append(N, x%4)
-							x /= 4
+							N = append(N, x%8)
+							x /= 8
 						}
 						emit(core.Case{Fam: "nestargs", N: N})
 					}
@@ -375,7 +389,7 @@ func init() {
 	core.Register(&core.Check{
 		ID:       "C11",
 		Category: "exploration",
-		Rule: "macro definitions with 0..4 parameters x calls with 0..6 distinct arguments x call form (_self, import alias, from-import, renamed from-import) x use of the result (print, assign and print twice, concatenate, argument of another macro, argument of a recording function, in a 2-iteration loop, in a capture, as condition and filter input); argument lists built from caller variables named like the macro's own parameters; arguments that are themselves macro calls with arguments, evaluated after earlier calls in the same execution; macros calling macros through _self to depth 3 with every inner arity; unknown macros of an imported set must fail. " +
+		Rule: "macro definitions with 0..4 parameters x calls with 0..6 distinct arguments x call form (_self, import alias, from-import, renamed from-import) x use of the result (print, assign and print twice, concatenate, argument of another macro, argument of a recording function, in a 2-iteration loop, in a capture, as condition and filter input); argument lists built from caller variables named like the macro's own parameters; arguments that are themselves macro calls (with arguments, or zero-argument calls of macros whose bodies call further macros), in every position, evaluated after earlier calls in the same execution; macros calling macros through _self to depth 3 with every inner arity; unknown macros of an imported set must fail. " +
 			"Every macro body prints each parameter and Context.Name(). Expected output by construction (positional binding, missing = null, surplus ignored, name = defining template); the distinct-outcome count shows the four call forms agree modulo the template name. distinct = distinct configuration; non-trivial = all",
 		Assumptions: []string{"a macro called through an import does not itself refer to _self (stated divergence)", "macros are defined before use in a non-extending template"},
 		Levels:      c11Levels,
